@@ -223,6 +223,11 @@ pub use membership::RaftMembership;
 #[cfg(d_engine_verif)]
 pub use network::grpc::grpc_transport::GrpcTransport;
 
+/// Verification hook (only with `--cfg d_engine_verif`): lets an external harness drive the real read actor.
+/// Adds no behaviour.
+#[cfg(d_engine_verif)]
+pub use read_actor::verif_read_actor_batch;
+
 // ==================== Test Utilities ====================
 
 /// Standardized test suite for custom [`StateMachine`] implementations.
